@@ -66,6 +66,8 @@ def parse_type(text):
             return Ty(head)
         if head in ("list", "tuple", "dict", "set"):
             return Ty(head, [Ty("any")] if head != "dict" else [Ty("any"), Ty("any")])
+        if head in STRUCT_TYPES:
+            return STRUCT_TYPES[head]
         return Ty("ref", name=head.split(".")[-1])
     parts, depth, cur = [], 0, ""
     for ch in inner:
@@ -87,6 +89,28 @@ T_INT, T_FLOAT, T_BOOL, T_ANY = Ty("int"), Ty("float"), Ty("bool"), Ty("any")
 
 
 # -------------------------------------------------------------------------------------------- values
+class StructV(tuple):
+    """A by-value struct (C struct / named tuple): a Python tuple of field values that remembers its type."""
+    def __new__(cls, items, ty):
+        o = tuple.__new__(cls, items)
+        o.ty = ty
+        return o
+
+    def field_index(self, name):
+        return STRUCTS[self.ty.name].index(name)
+
+
+STRUCTS = {}      # struct name -> ordered field names
+STRUCT_TYPES = {}  # struct name -> Ty
+
+
+def declare_struct(name, fields):
+    """fields: ordered list of (field name, type string)."""
+    STRUCTS[name] = [f for f, _ in fields]
+    STRUCT_TYPES[name] = Ty("tuple", [parse_type(t) for _, t in fields], name=name)
+    return STRUCT_TYPES[name]
+
+
 class RefV(object):
     """A reference (object, list, dict); term is a z3 Int, 0 encodes None."""
     __slots__ = ("term", "ty")
@@ -335,6 +359,7 @@ class Ctx(object):
         self.globals_vals = {}
         self.notes = []
         self._isint_done = {}
+        self._obliged = set()
 
     # -- symbols
     def fresh(self, base, sort):
@@ -350,7 +375,8 @@ class Ctx(object):
             return RefV(term, ty)
         if ty.kind == "tuple":
             s = sort_of(ty, self.num)
-            return tuple(self.wrap(s.accessor(0, i)(term), a) for i, a in enumerate(ty.args))
+            items = [self.wrap(s.accessor(0, i)(term), a) for i, a in enumerate(ty.args)]
+            return StructV(items, ty) if ty.name else tuple(items)
         return term
 
     def unwrap(self, v, ty):
@@ -435,6 +461,12 @@ class Ctx(object):
     def oblige(self, name, goal, kind="assert", expect_fail=False, info=None):
         if isinstance(goal, bool):
             goal = z3.BoolVal(goal)
+        if kind == "safety" and not expect_fail:
+            # the same safety condition on the same path was already obliged (and is assumed since): skip duplicates
+            gid = z3.simplify(goal).get_id()
+            if gid in self._obliged:
+                return
+            self._obliged.add(gid)
         ob = Obligation(name, self.pc, goal, kind, self.path_id, expect_fail, info)
         self.obligations.append(ob)
         if not expect_fail and kind not in ("ensures", "frame", "raises", "lemma"):
@@ -620,7 +652,7 @@ def _has_var(t):
 
 
 def type_of_value(v):
-    if isinstance(v, RefV):
+    if isinstance(v, (RefV, StructV)):
         return v.ty
     if isinstance(v, bool):
         return T_BOOL
